@@ -39,6 +39,7 @@ impl DocCase {
 }
 
 pub fn load(bytes: &[u8], strict: bool) -> Result<(AutosarModel, ArxmlFile, Vec<AutosarDataError>), AutosarDataError> {
+    let _watch = watch_case(bytes, if strict { "load_buffer(strict)" } else { "load_buffer(lenient)" });
     let m = AutosarModel::new();
     let (f, w) = m.load_buffer(bytes, "test.arxml", strict)?;
     Ok((m, f, w))
